@@ -301,7 +301,11 @@ bool Instance::eval(const size_t argc, char* const* argv) {
     CScript::const_iterator it = script.begin();
     try {
         while (it != script.end()) {
-            if (!StepScript(*env, it, &script)) {
+            const bool stepped = StepScript(*env, it, &script);
+            // restore after every operation: a later OP_CHECKSIG on the same line would otherwise build
+            // its script code from a range starting in the temporary script and ending in the session script
+            env->pbegincodehash = saved_pbegincodehash;
+            if (!stepped) {
                 fprintf(stderr, "Error: %s\n", ScriptErrorString(*env->serror).c_str());
                 ok = false;
                 break;
